@@ -529,6 +529,212 @@ def read_bitmap_art(env, art, data):
     return r
 
 
+# --------------------------------------------------------------------------- repeated access on one long-lived handle
+def _canon(v):
+    return json.dumps(v, sort_keys=True, default=repr)
+
+
+def _do(key, fn, out):
+    """one access: ("ok", canonical answer) | ("error", exception class); containment failures propagate"""
+    try:
+        out.append((key, "ok", _canon(fn())))
+    except (MemoryError, RecursionError):
+        raise
+    except Exception as e:       # noqa: BLE001
+        out.append((key, "error", type(e).__name__))
+
+
+def seq_packed_refs(env, art, data):
+    """get_packed_refs twice, the peeled value, the names, then a rewrite (add_packed_refs) whose result is what a
+    fresh container reads afterwards."""
+    from dulwich.refs import DiskRefsContainer
+    env.n += 1
+    d = os.path.join(env.scratch, f"seqrefs{env.n}")
+    os.makedirs(os.path.join(d, "refs"))
+    pr = os.path.join(d, "packed-refs")
+    with open(pr, "wb") as f:
+        f.write(data)
+    out = []
+    c = DiskRefsContainer(d)
+    get = lambda: sorted((k.decode("latin-1"), v.decode("latin-1")) for k, v in c.get_packed_refs().items())   # noqa: E731
+    _do("get", get, out)
+    _do("get", get, out)
+    _do("peeled", lambda: repr(c.get_peeled(b"refs/tags/v1")), out)
+    _do("get", get, out)
+
+    def write():
+        try:
+            c.add_packed_refs({b"refs/heads/c04new": b"d" * 40})
+        except Exception:
+            with open(pr, "rb") as f:
+                if f.read() == data:
+                    raise                       # failed and left the file alone
+            return "changed by a failed write"
+        fresh = DiskRefsContainer(d)
+        try:
+            return sorted((k.decode("latin-1"), v.decode("latin-1")) for k, v in fresh.get_packed_refs().items())
+        except Exception as e:       # noqa: BLE001
+            return "unreadable after the write: " + type(e).__name__
+    _do("write", write, out)
+    shutil.rmtree(d, ignore_errors=True)
+    return out, {}
+
+
+def seq_index(env, art, data):
+    """Index.read() on an existing instance; what the instance then holds; again"""
+    from dulwich.index import Index
+    env.n += 1
+    p = os.path.join(env.scratch, f"seqindex{env.n}")
+    with open(p, "wb") as f:
+        f.write(data)
+    out = []
+    ix = Index(p, read=False)
+    pristine = _canon(_index_dump(ix))
+
+    def read_view():
+        ix.read()
+        return _index_dump(ix)
+    _do("view", read_view, out)
+    _do("view", lambda: _index_dump(ix), out)
+    _do("view", read_view, out)
+    _do("view", lambda: _index_dump(ix), out)
+    os.unlink(p)
+    return out, {"view": pristine}
+
+
+def _store_with(env, files):
+    d = env.fresh("disk")
+    for rel, content in files.items():
+        fp = os.path.join(d, rel)
+        os.makedirs(os.path.dirname(fp), exist_ok=True)
+        with open(fp, "wb") as f:
+            f.write(content)
+    return d
+
+
+def seq_idx(env, art, data):
+    """one DiskObjectStore over pack + (damaged) index: every object asked for twice in a row"""
+    from dulwich.object_store import DiskObjectStore
+    pk = L.artefacts()[art["pack"]]
+    name = "pack/pack-" + "1" * 40
+    d = _store_with(env, {name + ".pack": pk["data"], name + ".idx": data})
+    out = []
+    st = DiskObjectStore(d)
+    try:
+        for i, info in enumerate(pk["info"]):
+            h = info[0].hex().encode()
+            rd = lambda h=h: (lambda t, raw: [t, sha1(raw).hexdigest()])(*st.get_raw(h))   # noqa: E731
+            _do(f"raw{i}", rd, out)
+            _do(f"raw{i}", rd, out)
+    finally:
+        st.close()
+    shutil.rmtree(d, ignore_errors=True)
+    return out, {}
+
+
+def seq_commit_graph(env, art, data):
+    from dulwich.object_store import DiskObjectStore
+    d = _store_with(env, {"info/commit-graph": data})
+    out = []
+    st = DiskObjectStore(d)
+    try:
+        def view():
+            g = st.get_commit_graph()
+            return None if g is None else [(e.commit_id, e.tree_id, tuple(e.parents), e.generation, e.commit_time) for e in g]
+        _do("graph", view, out)
+        _do("graph", view, out)
+        for i, cmt in enumerate(art["commits"]):
+            par = lambda cmt=cmt: (lambda g: None if g is None else g.get_parents(cmt.encode()))(st.get_commit_graph())   # noqa: E731
+            _do(f"parents{i}", par, out)
+            _do(f"parents{i}", par, out)
+    finally:
+        st.close()
+    shutil.rmtree(d, ignore_errors=True)
+    return out, {}
+
+
+def seq_midx(env, art, data):
+    from dulwich.object_store import DiskObjectStore
+    d = _store_with(env, {"pack/" + art["packname"] + ".pack": art["packdata"], "pack/" + art["packname"] + ".idx": art["idxdata"],
+                          "pack/multi-pack-index": data})
+    out = []
+    st = DiskObjectStore(d)
+    try:
+        def view():
+            m = st.get_midx()
+            return None if m is None else [(bytes(e[0]).hex(), e[1], e[2]) for e in m.iterentries()]
+        _do("midx", view, out)
+        _do("midx", view, out)
+        ids = sorted(L.idx_names(art["idxdata"]))[:4]
+        for i, h in enumerate(ids):
+            has = lambda h=h: st.contains_packed(h.encode())    # noqa: E731
+            rd = lambda h=h: (lambda t, raw: [t, sha1(raw).hexdigest()])(*st.get_raw(h.encode()))   # noqa: E731
+            _do(f"has{i}", has, out)
+            _do(f"has{i}", has, out)
+            _do(f"raw{i}", rd, out)
+            _do(f"raw{i}", rd, out)
+    finally:
+        st.close()
+    shutil.rmtree(d, ignore_errors=True)
+    return out, {}
+
+
+def seq_bitmap(env, art, data):
+    from dulwich.object_format import DEFAULT_OBJECT_FORMAT
+    from dulwich.pack import Pack
+    env.n += 1
+    d = os.path.join(env.scratch, f"seqbm{env.n}")
+    os.makedirs(d)
+    base = os.path.join(d, "pack-" + "2" * 40)
+    for ext, content in ((".pack", art["packdata"]), (".idx", art["idxdata"]), (".bitmap", data)):
+        with open(base + ext, "wb") as f:
+            f.write(content)
+    out = []
+    p = Pack(base, object_format=DEFAULT_OBJECT_FORMAT)
+    try:
+        def view():
+            bm = p.bitmap
+            return None if bm is None else [sorted((k.hex() if isinstance(k, bytes) else str(k)) for k in bm.entries),
+                                            [sorted(b.bits) for b in (bm.commit_bitmap, bm.tree_bitmap, bm.blob_bitmap, bm.tag_bitmap)]]
+        _do("bitmap", view, out)
+        _do("bitmap", view, out)
+    finally:
+        p.close()
+    shutil.rmtree(d, ignore_errors=True)
+    return out, {}
+
+
+SEQ_READERS = {"packed-refs": seq_packed_refs, "index": seq_index, "idx": seq_idx, "commit-graph": seq_commit_graph,
+               "midx": seq_midx, "bitmap": seq_bitmap}
+_SEQ_INTACT = {}
+
+
+def seq_case(env, name, art, data):
+    """the access sequence on a handle over the damaged artefact, each answer classified against the answer the
+    intact artefact gives at the same position: error | same | pristine | differs"""
+    fn = SEQ_READERS[art["kind"]]
+    if name not in _SEQ_INTACT:
+        _SEQ_INTACT[name] = fn(env, art, art["data"])[0]
+    intact = _SEQ_INTACT[name]
+
+    def go():
+        got, pristine = fn(env, art, data)
+        acc = []
+        for (k, st, v), (k0, st0, v0) in zip(got, intact):
+            if st == "error":
+                r = "error"
+            elif st0 == "ok" and v == v0:
+                r = "same"
+            elif pristine.get(k) is not None and v == pristine[k]:
+                r = "pristine"
+            else:
+                r = "differs"
+            acc.append([k, r, v if st == "error" else None])
+        return acc
+    t = timed(go)
+    return {"acc": t[4] or [], "outcome": t[0], "exc": t[1], "msg": t[2], "wall_ms": round(t[3], 2)}
+
+
 READERS = {"idx": read_idx, "loose": read_loose, "index": read_index, "packed-refs": read_packed_refs,
            "commit-graph": read_commit_graph, "midx": read_midx, "bitmap": read_bitmap_art}
 
@@ -846,7 +1052,10 @@ def run_case(env, c):
                 evs.append(run_direct(env, data, ents, idxdata=write_idx_v2([(i[0], i[1], i[2]) for i in art["info"]], art["data"][-20:])))
             return {"events": evs, "trailer_ok": len(data) >= 20 and sha1(data[:-20]).digest() == data[-20:]}
         r = READERS[art["kind"]](env, art, data)
-        return {"reads": {k2: _pack_result(v) for k2, v in r.items()}}
+        res = {"reads": {k2: _pack_result(v) for k2, v in r.items()}}
+        if art["kind"] in SEQ_READERS:
+            res["seq"] = seq_case(env, c["art"], art, data)
+        return res
     if k == "bomb":
         return bomb_case(env, c["which"])
     if k == "loosebomb":
